@@ -19,7 +19,7 @@ RULE = (
     "instants/durations/JSON data from the shared generators; written bucket after bucket or in turns, a few events per bucket per round); the peewee handle is closed and SqliteStorage(profile) is constructed without a file path, which is the "
     "only way the migration runs. Oracle: the new store lists the same bucket ids; per bucket equal type/client/hostname/name/data and created equal as an instant; "
     "events equal as a multiset of (instant floored to ms, duration us, data) - none dropped, none duplicated (ids may be renumbered); the legacy file's logical "
-    "contents (every row of every table) and its SHA-256 are unchanged and no journal/WAL sibling is left. A quarter of the buckets carry a creation time without offset (read as UTC by both stores), 3 cases in 5 run in a local time zone other than UTC, and in a third of the cases the migration runs in a child process that reads every bucket and exits normally, the comparison being made by the next process to open the store. About one bucket in ten is large (400..1300 events, 1..7 per instant, touching or zero-length) and in half the cases a legacy database of the OTHER profile with different contents lies next to it. Non-trivial = >= 1 bucket with >= 2 events and a non-empty data dict, or a large bucket."
+    "contents (every row of every table) and its SHA-256 are unchanged and no journal/WAL sibling is left. In 4 cases of 7 the data directory also holds stale zero-length files (-wal/-shm/-journal of a SQLite store whose main file is gone, a .bak copy). A quarter of the buckets carry a creation time without offset (read as UTC by both stores), 3 cases in 5 run in a local time zone other than UTC, and in a third of the cases the migration runs in a child process that reads every bucket and exits normally, the comparison being made by the next process to open the store. About one bucket in ten is large (400..1300 events, 1..7 per instant, touching or zero-length) and in half the cases a legacy database of the OTHER profile with different contents lies next to it. Non-trivial = >= 1 bucket with >= 2 events and a non-empty data dict, or a large bucket."
 )
 ASSUMPTIONS = [
     "event ids are not promised to survive the migration",
@@ -81,6 +81,8 @@ def strategy(draw, tier="quick"):
         "interleave": draw(st.sampled_from([0, 0, 1, 2, 7])),
         "tz": draw(st.sampled_from([None, None, "JST-9", "EST5EDT", "NZST-12NZDT,M9.5.0,M4.1.0/3"])),  # the process's local time zone
         "restart": draw(st.integers(0, 2)) == 0,  # migrate in a child process that reads everything and exits; judge what the next process finds
+        # what else may lie in the data directory: leftovers of a SQLite store whose main file is gone (killed process, deleted db), a backup copy
+        "debris": draw(st.sampled_from([[], [], [], ["{sq}.db-wal", "{sq}.db-shm"], ["{sq}.db-journal"], ["{sq}.db.bak", "notes.txt"], ["{pw}.db-journal"]])),
     }
 
 
@@ -174,6 +176,9 @@ def run_case(case):
         c_ = _sq.connect(legacy)
         c_.execute("PRAGMA journal_mode=DELETE")
         c_.close()
+        for pat in case.get("debris", []):
+            fn = pat.format(sq="sqlite" + ("-testing" if testing else "") + ".v1", pw="peewee-sqlite" + ("-testing" if testing else "") + ".v2")
+            open(os.path.join(ddir, fn), "wb").close()  # zero-length: neither a valid WAL nor a hot journal
         sha_before = _sha(legacy)
         sib_before = set(os.listdir(ddir))
         rows_before = stores.fresh_dump(legacy)
@@ -259,6 +264,8 @@ def run_case(case):
         classes.append("buckets_written_in_turns")
     if case.get("restart"):
         classes.append("migrated_in_a_child_process_then_reopened")
+    if case.get("debris"):
+        classes.append("stale_files_in_data_dir")
     if case.get("tz"):
         classes.append("local_zone_not_utc")
     if any(b.get("created_naive") for b in case["buckets"]):
